@@ -30,12 +30,25 @@ META = {
 _sims: dict[tuple, CompSim] = {}
 
 
+METHODS = ["read", "remove", "push", "write"]
+
+
 def _sim(d: dict) -> CompSim:
-    key = (d["n"], d["kw"], d["dw"])
+    two = d.get("callers") == 2
+    key = (d["n"], d["kw"], d["dw"], two)
     if key not in _sims:
         from transactron.lib.storage import ContentAddressableMemory
 
-        _sims[key] = CompSim(lambda: ContentAddressableMemory([("a", d["kw"])], [("d", d["dw"])], d["n"]))
+        mk = lambda: ContentAddressableMemory([("a", d["kw"])], [("d", d["dw"])], d["n"])  # noqa: E731
+        if not two:
+            _sims[key] = CompSim(mk)
+        else:
+            from ..twocall_b5 import probe, wrap
+
+            sim = CompSim(lambda: wrap(mk(), METHODS))
+            both = {f"{m}_{c}[0]": (1 if c == "a" else 0) for m in METHODS for c in "ab"}
+            sim.prio = probe(sim, [both, both], [(m, 0) for m in METHODS])
+            _sims[key] = sim
     return _sims[key]
 
 
@@ -55,8 +68,81 @@ def fmt_op(r=None, w=None, x=None, p=None) -> str:
     return f"cyc r={f1(r)} w={f2(w)} x={f1(x)} p={f2(p)}"
 
 
+def parse_two(line: str) -> dict:
+    """tokens `ra= rb= wa= wb= xa= xb= pa= pb=` of a two-caller line"""
+    t = dict(x.split("=") for x in line.split()[1:])
+    out = {}
+    for k in ("ra", "rb", "xa", "xb"):
+        out[k] = None if t[k] == "-" else int(t[k])
+    for k in ("wa", "wb", "pa", "pb"):
+        out[k] = None if t[k] == "-" else tuple(int(y) for y in t[k].split(":"))
+    return out
+
+
+def impl2(case: Case) -> list[str]:
+    """two callers per method on the real component; observations merged into the single-caller format, an
+    `anomaly=` token is added when a method served both callers (or the one without priority) in one cycle"""
+    from ..twocall_b5 import merge
+
+    d = case.desc
+    kw, dw = d["kw"], d["dw"]
+    sim = _sim(d)
+    ops, atts = [], []
+    names = {"r": "read", "x": "remove", "w": "write", "p": "push"}
+    for line in case.ops:
+        o = parse_two(line)
+        op = {}
+        for k, m in names.items():
+            for c in "ab":
+                v = o[k + c]
+                op[f"{m}_{c}[0]"] = None if v is None else (v if k in "rx" else v[0] | (v[1] << kw))
+        ops.append(op)
+        atts.append(o)
+    tr = sim.run(ops, extra=lambda dut: [dut.inner.push.ready])
+    out = ["ok"]
+    for res, o in zip(tr, atts):
+        got, anomalies = {}, []
+        for k, m in names.items():
+            got[k], an = merge(res, m, 0, o[k + "a"] is not None, o[k + "b"] is not None, sim.prio[(m, 0)])
+            if an:
+                anomalies.append(an)
+        r = got["r"]
+        rs = "-" if r is None else f"{r & ((1 << dw) - 1)}:{r >> dw}"
+        ws = "-" if got["w"] is None else str(got["w"])
+        xs = "-" if got["x"] is None else "1"
+        ps = "-" if got["p"] is None else "1"
+        line = f"r={rs} w={ws} x={xs} p={ps} rdy={res['_extra'][0]}"
+        out.append(line + (f" anomaly={'+'.join(anomalies)}" if anomalies else ""))
+    return out
+
+
+def two_line(rng, line: str, d: dict, prio: dict) -> str:
+    """distribute the attempted calls of an effective single-caller line over two callers (twocall_b5.split)"""
+    from ..twocall_b5 import split
+
+    o = parse_op(line)
+    kmax, dmax = (1 << d["kw"]) - 1, (1 << d["dw"]) - 1
+    junk = {
+        "r": rng.randint(0, kmax),
+        "x": rng.randint(0, kmax),
+        "w": (rng.randint(0, kmax), rng.randint(0, dmax)),
+        "p": (rng.randint(0, kmax), rng.randint(0, dmax)),
+    }
+    names = {"r": "read", "x": "remove", "w": "write", "p": "push"}
+    f1 = lambda v: "-" if v is None else str(v)  # noqa: E731
+    f2 = lambda v: "-" if v is None else f"{v[0]}:{v[1]}"  # noqa: E731
+    toks = []
+    for k, m in names.items():
+        a, b = split(rng, o[k], junk[k], prio[(m, 0)])
+        f = f1 if k in "rx" else f2
+        toks.append(f"{k}a={f(a)} {k}b={f(b)}")
+    return line + " " + " ".join(toks)
+
+
 def impl(case: Case) -> list[str]:
     d = case.desc
+    if d.get("callers") == 2:
+        return impl2(case)
     kw, dw = d["kw"], d["dw"]
     sim = _sim(d)
     ops = []
@@ -90,6 +176,8 @@ def monitor(case: Case, out: list[str]):
     for c, (line, o) in enumerate(zip(case.ops, out[1:])):
         i = parse_op(line)
         f = dict(x.split("=") for x in o.split())
+        if "anomaly" in f:
+            return f"cycle {c}: {f['anomaly']} (two callers of one exclusive method served in one cycle)"
         free = len(D) < n
         if f["rdy"] != str(int(free)):
             return f"cycle {c}: push ready={f['rdy']} with {len(D)} of {n} entries used"
@@ -207,6 +295,14 @@ def gen_cases(ctx: Check):
             for pr in REGIMES:
                 good.append(Case(cfg, gen_ops(rng, d, cyc, pr), d, "random"))
             malformed.append(Case(cfg, gen_ops(rng, d, cyc // 2, REGIMES[0], wellformed=False), d, "malformed"))
+    # two callers per method: an exclusive method serves at most one of them per cycle; the union of the executed
+    # calls is the single-caller history the property (and the model) talks about
+    for n in ctx.pick([1, 2, 3, 5], [1, 2, 3, 4, 5, 8]):
+        d = dict(_desc(n, max(2, n.bit_length()), 4), callers=2)
+        prio = _sim(d).prio
+        for pr in (REGIMES[2], REGIMES[0], REGIMES[1]):
+            eff = gen_ops(rng, d, cyc, pr)
+            good.append(Case(f"cfg n={n}", [two_line(rng, ln, d, prio) for ln in eff], d, "two-callers"))
     if ctx.thorough:
         # all well-formed-or-not histories of length <= 3 over 2 keys, 1-bit data, n in {1,2}; the monitor
         # itself stops judging at the first push of a present key
@@ -236,7 +332,10 @@ def _corpus() -> list[Case]:
 def more_cases(case: Case, rng):
     d = case.desc
     for _ in range(40):
-        yield Case(case.cfg, gen_ops(rng, d, 200, rng.choice(REGIMES)), d, "search")
+        ops = gen_ops(rng, d, 200, rng.choice(REGIMES))
+        if d.get("callers") == 2:
+            ops = [two_line(rng, ln, d, _sim(d).prio) for ln in ops]
+        yield Case(case.cfg, ops, d, "search")
 
 
 def nontrivial(case: Case, out: list[str]) -> bool:
